@@ -1,32 +1,8 @@
-//! physim — deterministic simulation with fault injection for the lora-phy drivers (C14, C18).
-//! See /verif/DESIGN.md (sections 3, 4 "Chip models", 6 C14/C18, appendix B).
+//! physim — command line (see lib.rs).
 
-pub mod c14;
-pub mod c18;
-pub mod chip126x;
-pub mod chip127x;
-pub mod exec14;
-pub mod rig;
-pub mod script;
-pub mod world;
-
+use physim::*;
 use simcore::*;
 use std::path::Path;
-
-pub fn components_phy() -> serde_json::Value {
-    serde_json::json!({
-        "real": [
-            "lora_phy::LoRa (mode-tracking layer)", "lora_phy::sx126x::Sx126x (Sx1261, Sx1262, Stm32wl variants)",
-            "lora_phy::sx127x::Sx127x (Sx1272, Sx1276 variants)", "lora_phy::lorawan_radio::LorawanRadio (PhyRxTx adapter)",
-            "lora_phy::interface::SpiInterface"
-        ],
-        "stub": [
-            "radio chip (ChipModel126x / ChipModel127x: register file, mode machine incl. RxDutyCycle sleep phases, IRQ flag/mask logic, data buffer wrapping at 256, configuration-validity bits, BUSY timing, lying mode)",
-            "SPI bus (SimSpi: SpiDevice<u8>, fault = transaction not delivered + error)", "BUSY / IRQ / reset lines and RF switch (SimIv: InterfaceVariant)",
-            "delay and clock (SimDelay: DelayNs over the simulated microsecond clock)", "application / MAC above the adapter (the script calls PhyRxTx directly)"
-        ]
-    })
-}
 
 fn usage() -> i32 {
     eprintln!("usage: physim check <C14|C18> <quick|thorough>\n       physim replay <file>\n       physim selftest");
